@@ -36,6 +36,26 @@ RB_FMT_VALUES = [0.0, -0.0, 5.0, 0.5, 1.5, -0.25, 100.0, 1e15, 1e16, 1.5e16, 1e2
                  123456789012345680.0, -1e-10, 2.5e-300, 1e300]
 
 
+def int_limit():
+    from harness.tables import pyint
+    return pyint.limit()
+
+
+def long_int_texts(nonascii=False):
+    """digit runs at the interpreter's `int()` limit (`sys.get_int_max_str_digits()`): LIMIT and LIMIT+1
+    digit characters, with a sign, with leading zeros, followed by a literal; none when there is no limit"""
+    lim = int_limit()
+    if lim > 100000:
+        return []
+    # few and cheap for the kernel (`decide +kernel` walks every character; an accepted run of LIMIT
+    # sevens costs seconds in `int`/`str`): the accepted text is LIMIT digit characters with leading
+    # zeros.  Full-size accepted numerals are exercised by the correspondence run (harness/intlimlib.py).
+    out = ['0' * (lim - 1) + '7/x', '-' + '7' * (lim + 1) + '.png']
+    if nonascii:
+        out = ['0' * (lim - 1) + '7/x', '-' + '7' * (lim + 1) + '/x', '٣' * (lim + 1)]
+    return out
+
+
 def lchars(s):
     """Lean term of type `List Char`; long runs of one character as `List.replicate` (the kernel
     evaluates `String.toList` of a long literal in quadratic time)"""
@@ -112,9 +132,22 @@ def generate():
                % ',\n  '.join('(%s, %s, %s, %s)' % (lstr(a), lstr(b), lstr(t),
                                                     'none' if r is None else 'some (%s, %d)' % (lstr(r[0]), r[1]))
                                for a, b, t, r in probes))
+    # --- at the interpreter's int() limit (texts as `List Char`: long runs as `List.replicate`) ----
+    h = FilterFactory.make_filter('int', None)[0]
+    long_probes = []
+    for t in long_int_texts():
+        v, n, sel = h(t)
+        assert sel is None
+        long_probes.append((t, None if v is None else (str(v), n)))
+    out.append('/-- (text, answer of the live `int` handler: value text and characters consumed) for digit runs of\n'
+               '`sys.get_int_max_str_digits()` and one more characters (sign, leading zeros, a following literal) -/\n'
+               'def builtinIntLimitProbes : List (List Char × Option (List Char × Nat)) := [\n  %s]\n'
+               % ',\n  '.join('(%s, %s)' % (lchars(t), 'none' if r is None else 'some (%s, %d)' % (lchars(r[0]), r[1]))
+                               for t, r in long_probes))
     # --- the concrete environment ------------------------------------------------------------
     env_probes, fconv = [], {}
-    rb_cases = [('int', None, RB_INT_TEXTS), ('int', '', RB_INT_TEXTS[:6]), ('float', None, RB_FLOAT_TEXTS)]
+    rb_cases = [('int', None, RB_INT_TEXTS + long_int_texts(nonascii=True)), ('int', '', RB_INT_TEXTS[:6]),
+                ('float', None, RB_FLOAT_TEXTS)]
     rb_cases += [('path', c, path_texts(c)) for c in PATH_CONFS]
     extra = {}
     for c, t in RB_PATH_EXTRA:
